@@ -781,6 +781,62 @@ func runC09(tier string, r *Result) {
 		for _, b := range bombs {
 			judge(b)
 		}
+		// name cycles among the type definitions (a type named by itself, two and three types naming each other), used
+		// through every constructor at every position, definitions before and after the use
+		cyc := [][]string{{"type T T"}, {"type T ?T"}, {"type T []T"}, {"type T [string]T"}, {"type A B", "type B A"}, {"type A B", "type B C", "type C A"}, {"type A ?B", "type B A"}, {"type A (a: A)"}, {"type A (b: B)", "type B A"}}
+		for _, defs := range cyc {
+			name := strings.Fields(defs[0])[1]
+			for _, wrap := range []string{"", "?", "[]", "[string]", "?[]", "[]?", "?[string]"} {
+				for _, use := range []string{"method F(x: %s) -> ()", "method F() -> (x: %s)", "error E (x: %s)", "type U (x: %s)\nmethod F(u: U) -> ()", "method F() -> ()"} {
+					u := strings.ReplaceAll(use, "\\n", "\n")
+					if strings.Contains(u, "%s") {
+						u = fmt.Sprintf(u, wrap+name)
+					}
+					d := strings.Join(defs, "\n")
+					judge("interface a.b\n" + d + "\n" + u + "\n")
+					judge("interface a.b\n" + u + "\n" + d + "\n")
+				}
+			}
+		}
+	}
+	// (5) documentation blocks: every sequence of <=3 (thorough 4) comment lines over 9 line forms (bare '#', text flush /
+	// indented / behind a tab, blanks only, indented '#', a second '#') above each kind of member, LF and CRLF, and every
+	// byte-prefix of the shorter ones
+	docAlpha := []string{"#", "# x", "#   x", "#\tx", "#  ", "  # x", "#x", "##", "#     y z"}
+	docLen := 3
+	if tier != "quick" {
+		docLen = 4
+	}
+	hosts := []string{"%sinterface a.b\nmethod F() -> ()\n", "interface a.b\n%smethod F() -> ()\n", "interface a.b\n%stype T (a: int)\nmethod F() -> ()\n", "interface a.b\nmethod F() -> ()\n%serror E (a: int)\n", "interface a.b\nmethod F() -> ()\n%s"}
+	for l := 1; l <= docLen; l++ {
+		n := 1
+		for i := 0; i < l; i++ {
+			n *= len(docAlpha)
+		}
+		for code := 0; code < n; code++ {
+			total++
+			if !r.mine(total) {
+				continue
+			}
+			var blk strings.Builder
+			c := code
+			for i := 0; i < l; i++ {
+				blk.WriteString(docAlpha[c%len(docAlpha)])
+				blk.WriteString("\n")
+				c /= len(docAlpha)
+			}
+			for _, h := range hosts {
+				text := fmt.Sprintf(h, blk.String())
+				judge(text)
+				judge(strings.ReplaceAll(text, "\n", "\r\n"))
+				if l <= 2 {
+					for k := 0; k < len(text); k++ {
+						judge(text[:k])
+					}
+				}
+			}
+			r.Nodes++
+		}
 	}
 	r.MaxBound = maxLen
 }
